@@ -63,6 +63,23 @@ Theorem c12_remark_former_mid_collision_repaired :
 Proof. exact dup_mid_repaired. Qed.
 Print Assumptions c12_remark_former_mid_collision_repaired.
 
+(* Remark on the calls that do NOT succeed (the gap noted earlier): when
+   generateMatchedSDP fails at a remote section -- a mid no local transceiver
+   carries, reachable through a remote answer that names such a mid -- the
+   transceivers matched before it keep their setNegotiated mark (and the mids
+   given out stay). The model follows that (matched_prefix / mark_at); the
+   witness: the sender AddTrack put on the first transceiver is not negotiated
+   before the failing CreateOffer and is negotiated after it. The same history
+   is replayed on the real code in the corpus (the mark shows as AddEncoding
+   being refused after the next startRTPSenders). *)
+Theorem c12_remark_failed_offer_keeps_marks_witness :
+  let p := run_ops (pc_init false) failed_offer_history in
+  negotiated_flags p = [Some false; None]
+  /\ o_status (snd (fst (create_offer p))) = "mid-not-found"
+  /\ negotiated_flags (fst (fst (create_offer p))) = [Some true; None].
+Proof. exact failed_offer_keeps_marks. Qed.
+Print Assumptions c12_remark_failed_offer_keeps_marks_witness.
+
 (* An application section is present exactly when a data channel was created
    or AlwaysNegotiateDataChannels is set. "A data channel was created" covers
    both sides: locally (CreateDataChannel: want_data) or by the remote peer and
